@@ -249,6 +249,8 @@ class Ref:
                 raise RefErr("assertion")
             u = self.find(g, a[0])
             v = self.find(a[1], a[0])
+            if u is v:
+                raise RefErr("query")           # "two nodes ... belonging to two graphs": a node is not merged with itself
             mine, theirs = dict(u), dict(v)
             pol = a[2]
             if pol is None:
